@@ -49,7 +49,13 @@ def offer(where, edges):
             scared.MIAReverse(selection_function=scared.aes.selection_functions.encrypt.FirstSubBytes(), model=scared.HammingWeight(), bin_edges=edges)
         else:
             o = scared.MIADistinguisher(bin_edges=[0, 1])
-            o.bin_edges = edges
+            try:
+                o.bin_edges = edges
+            except (ValueError, TypeError):
+                # refused means not in force: the object still has the edges it had
+                if not np.array_equal(np.asarray(o.bin_edges, dtype='float64'), [0.0, 1.0]) or getattr(o, 'bins_number', 1) != 1:
+                    return 'refused-but-in-force'
+                raise
         return True
     except (ValueError, TypeError):
         return False
@@ -71,6 +77,10 @@ def edges_replay(chk, emitted):
             for wh in ([where] if where else wheres):
                 got = offer(wh, ed)
                 chk.count(('E', i, fname, wh), nontrivial=len(ints) >= 3)
+                if got == 'refused-but-in-force':
+                    chk.violation('edges:non-uniform edges are refused when configured:refused edges stay in force', {'property': 'C13', 'edges': list(map(float, np.asarray(ed).tolist())), 'where': wh, 'accepted': False, 'spec_valid': e['valid']},
+                                  f'{wh}: edges {list(np.asarray(ed).tolist())} were refused with an exception but are in force on the object afterwards')
+                    continue
                 if got != e['valid']:
                     kind = 'non-uniform edges are refused when configured' if not e['valid'] else 'uniform increasing edges are accepted'
                     shape = 'valid' if e['valid'] else ('not increasing' if any(a >= b for a, b in zip(ints, ints[1:])) else
@@ -187,8 +197,12 @@ def float_cases(chk, rng):
     if chk.tier == 'quick':
         specs = specs[:6]
     cases, real = [], []
-    for lo, hi, nb in specs:
-        edges = np.linspace(lo, hi, nb + 1)
+    # edge sets: linspace of the end points, and edges written as decimal literals / rounded values / multiples of 0.1 (equally spaced for the
+    # validation, NOT the linspace of their end points: the configured edges themselves decide the bin of a sample)
+    edge_sets = [np.linspace(lo, hi, nb + 1) for lo, hi, nb in specs]
+    edge_sets += [np.array([k / 10 for k in range(11)]), np.round(np.linspace(0.05, 0.95, 10), 2), np.array([0.1 * k for k in range(8)]), np.array([1.1 * k for k in range(1, 8)])]
+    for edges in edge_sets:
+        lo, hi, nb = float(edges[0]), float(edges[-1]), len(edges) - 1
         xs = []
         for e in edges:
             xs += [e, np.nextafter(e, -np.inf), np.nextafter(e, np.inf)]
